@@ -5,9 +5,12 @@ package main
 // build overlay; never part of /repo.
 
 import (
+	"bytes"
+	"encoding/json"
 	"fmt"
 	"io"
 	"log"
+	"net/http/httptest"
 	"os"
 	"path/filepath"
 	"sort"
@@ -40,6 +43,7 @@ type cop struct {
 	User  string
 	Pw    string
 	Admin bool
+	NewPw string // webupdate: the new password (Pw is the old one)
 	Via   string // "" = Store interface; "sasl" | "ldap" | "webupdate-old" | "basic"
 	Cfg   int    // sighup: which configuration to install before signalling
 }
@@ -50,6 +54,8 @@ func (o cop) String() string {
 		return fmt.Sprintf("auth(%s,%s)%s", o.User, o.Pw, via(o.Via))
 	case "update":
 		return fmt.Sprintf("update(%s,%s)%s", o.User, o.Pw, via(o.Via))
+	case "webupdate":
+		return fmt.Sprintf("webupdate(%s,old=%s,new=%s)", o.User, o.Pw, o.NewPw)
 	case "add":
 		return fmt.Sprintf("add(%s,%s,%v)", o.User, o.Pw, o.Admin)
 	case "remove":
@@ -148,6 +154,9 @@ func (sc *scenario) passwords() []string {
 		for _, o := range c {
 			if o.Pw != "" {
 				m[o.Pw] = true
+			}
+			if o.NewPw != "" {
+				m[o.NewPw] = true
 			}
 		}
 	}
@@ -373,6 +382,11 @@ func (w *world) doOp(o cop) string {
 		return fmt.Sprintf("%v/%v", ok, ok && adm)
 	case "update":
 		return errS(st.Update(o.User, o.Pw))
+	case "webupdate":
+		b, _ := json.Marshal(map[string]string{"username": o.User, "oldpassword": o.Pw, "newpassword": o.NewPw})
+		rec := httptest.NewRecorder()
+		handleWebUpdate(st, w.sessions(), rec, httptest.NewRequest("POST", "/api/update", bytes.NewReader(b)))
+		return fmt.Sprintf("%v", rec.Code == 200)
 	case "add":
 		return errS(st.Add(o.User, o.Pw, o.Admin))
 	case "remove":
